@@ -53,6 +53,14 @@ func cloneElements(fn *ssa.Function, withClosures bool) map[string]bool {
 						if pk := core.FnPkg(callee); pk != nil && (strings.HasSuffix(pk.Path(), "/pkg/metrics") || strings.HasSuffix(pk.Path(), "/pkg/sql/monitor")) {
 							continue
 						}
+						// an input-loader helper (unexported method of the same receiver, loop-free, that stores one of its
+						// parameters into a receiver field) is part of its caller's body: take its elements instead of the call
+						if isLoaderHelper(fn, callee) {
+							for k := range cloneElements(callee, false) {
+								out[k] = true
+							}
+							continue
+						}
 						name = core.FnName(callee)
 					} else {
 						name = "dynamic call"
@@ -110,4 +118,36 @@ func dumpCloneDiffs(p *core.Prog, base *ssa.Function, others ...*ssa.Function) [
 		out = append(out, core.FnName(base)+" vs "+core.FnName(o)+": only-base="+strings.Join(a, " ; ")+" || only-other="+strings.Join(b, " ; "))
 	}
 	return out
+}
+
+// isLoaderHelper: callee is an unexported, loop-free method of fn's receiver type that stores a parameter into a receiver field.
+func isLoaderHelper(fn, callee *ssa.Function) bool {
+	if fn.Signature.Recv() == nil || callee.Signature.Recv() == nil || callee == fn || callee.Blocks == nil {
+		return false
+	}
+	if core.NamedOf(fn.Signature.Recv().Type()) == nil || core.NamedOf(fn.Signature.Recv().Type()) != core.NamedOf(callee.Signature.Recv().Type()) {
+		return false
+	}
+	if callee.Object() != nil && callee.Object().Exported() {
+		return false
+	}
+	if len(blockSCCs(callee, nil, nil, nil)) > 0 {
+		return false
+	}
+	for _, b := range callee.Blocks {
+		for _, in := range b.Instrs {
+			st, ok := in.(*ssa.Store)
+			if !ok {
+				continue
+			}
+			fa, ok := st.Addr.(*ssa.FieldAddr)
+			if !ok || fa.X != ssa.Value(callee.Params[0]) {
+				continue
+			}
+			if par, ok := st.Val.(*ssa.Parameter); ok && par != callee.Params[0] {
+				return true
+			}
+		}
+	}
+	return false
 }
